@@ -198,6 +198,11 @@ pub fn mon_get(s: &mut dyn Subject, ctx: &mut Ctx, filt: &dyn Fn(&CaseDesc, &Fie
         if !fd.readable || !filt(d, fd) {
             continue;
         }
+        if fd.self_overlapping() && !ctx.cfg.judge_panics_only {
+            // lists that name a bit twice are outside the gather/scatter guarantee; only totality (C16) applies
+            ctx.st.count("fields-skipped/list-names-a-bit-twice", 1);
+            continue;
+        }
         ctx.st.fields += 1;
         ctx.st.shape(shape_of(d, fd));
         for i in 0..fd.count() {
@@ -227,6 +232,9 @@ pub fn mon_get(s: &mut dyn Subject, ctx: &mut Ctx, filt: &dyn Fn(&CaseDesc, &Fie
                     let kind = if matches!(obs, Obs::Panic(_)) { VKind::UnexpectedPanic } else { VKind::Model };
                     ctx.violate(kind, d, "get", "getter result differs from the declared bits of the raw value", Some((fd, i as usize)), OP_GET, r, 0, &obs.show(), &exp.show(), &[]);
                 }
+                if bad {
+                    break; // one witness per (field, element)
+                }
                 seen1 |= r & fmask;
                 seen0 |= !r & fmask;
                 match &first {
@@ -254,7 +262,7 @@ pub fn mon_get(s: &mut dyn Subject, ctx: &mut Ctx, filt: &dyn Fn(&CaseDesc, &Fie
                     |o| o,
                 );
                 for k in 0..bw {
-                    if (fmask >> k) & 1 == 1 {
+                    if (fmask >> k) & 1 == 1 || bad {
                         continue;
                     }
                     let r2 = r ^ (1u128 << k);
@@ -315,7 +323,7 @@ pub fn mon_put(s: &mut dyn Subject, ctx: &mut Ctx, filt: &dyn Fn(&CaseDesc, &Fie
         if !fd.writable || !filt(d, fd) {
             continue;
         }
-        if fd.self_overlapping() {
+        if fd.self_overlapping() && !ctx.cfg.judge_panics_only {
             ctx.st.count("fields-skipped/list-names-a-bit-twice", 1);
             continue;
         }
@@ -404,6 +412,9 @@ pub fn mon_put(s: &mut dyn Subject, ctx: &mut Ctx, filt: &dyn Fn(&CaseDesc, &Fie
                             }
                         }
                     }
+                    if bad {
+                        break;
+                    }
                     if old != 0 && old != pat {
                         nt_old = true;
                     }
@@ -413,6 +424,9 @@ pub fn mon_put(s: &mut dyn Subject, ctx: &mut Ctx, filt: &dyn Fn(&CaseDesc, &Fie
                     if r & neigh == neigh {
                         nb1 = true;
                     }
+                }
+                if bad {
+                    break;
                 }
             }
             if nt_old && nb0 && nb1 && !bad {
@@ -463,7 +477,7 @@ pub fn mon_array(s: &mut dyn Subject, ctx: &mut Ctx, filt: &dyn Fn(&CaseDesc, &F
     let mut rng = Rng::from_str(ctx.cfg.seed ^ 0x03, d.id);
     for (fi, fd) in d.fields.iter().enumerate() {
         let Some((count, stride)) = fd.array else { continue };
-        if !filt(d, fd) || fd.self_overlapping() {
+        if !filt(d, fd) || (fd.self_overlapping() && !ctx.cfg.judge_panics_only) {
             continue;
         }
         ctx.st.fields += 1;
@@ -696,7 +710,7 @@ pub fn mon_hist(s: &mut dyn Subject, ctx: &mut Ctx, opts: &HistOpts) {
         ctx.st.count("cases-without-writable-field", 1);
         return;
     }
-    if d.fields.iter().any(|f| f.writable && f.self_overlapping()) {
+    if d.fields.iter().any(|f| f.self_overlapping()) && !ctx.cfg.judge_panics_only {
         ctx.st.count("cases-skipped/list-names-a-bit-twice", 1);
         return;
     }
